@@ -277,7 +277,8 @@ impl Gen {
                 }
             } else {
                 match self.wl.below(100) {
-                    0..=59 => ItemKind::Cmd(self.act_cmd(true)),
+                    0..=55 => ItemKind::Cmd(self.act_cmd(true)),
+                    56..=59 => ItemKind::CmdBadCut(self.act_cmd(false), [-2i8, -1, 1, 3][self.wl.usize_below(4)]),
                     60..=74 => ItemKind::Merge(Sel::Tip(self.wl.below(8) as u32)),
                     75..=79 => ItemKind::DupInit,
                     80..=84 => ItemKind::ForeignInit,
